@@ -33,7 +33,10 @@ def run_job(job):
         return dict(summary=json.loads(json.dumps(_jsonable(out))), covers=list(sx.conc_covers),
                     failures=list(sx.conc_failures))
     except BaseException as e:  # noqa
-        return dict(error="%s: %s | %s" % (type(e).__name__, e, traceback.format_exc()[-1200:]))
+        # the harness died after the scenario had already shown failures (e.g. a later step raised because the connection
+        # was failed by the violation): what was recorded up to there still counts
+        return dict(error="%s: %s | %s" % (type(e).__name__, e, traceback.format_exc()[-1200:]),
+                    failures=list(sx.conc_failures), covers=list(getattr(sx, "conc_covers", [])))
 
 
 def main():
